@@ -7,6 +7,7 @@ from haiway import MISSING, asynchronous, cache, ctx, retry, throttle, timeout, 
 from harness import interp
 from harness.interp import Base, Err, World
 from harness.legs import cfg_text, leg_m, leg_mutant, leg_r
+from harness.vloop import Falsy
 
 SPEC = "Wrappers"
 MANIFEST = dict(
@@ -45,7 +46,7 @@ class WrappersDriver:
         self.result = None
         self.pool = None
         self.traced_obs = ("none", "none", "none")
-        self.VAL, self.ERR, self.BASE = object(), Err("fn failed"), Base("fn base")
+        self.VAL, self.ERR, self.BASE = Falsy("value"), Err("fn failed"), Base("fn base")
         self.AW = self.w.loop.create_future()      # an awaitable object returned as a plain value
         self.AW.set_result("what awaiting the returned object would give")
         self.metrics = []
